@@ -434,6 +434,30 @@ func genFont(rng *rand.Rand, o *fontOpts) *type1.Font {
 		}
 		f.Glyphs[name] = genGlyph(rng, o)
 	}
+	if rng.IntN(8) == 0 && len(f.Glyphs) > 0 {
+		// twins: the same outline, hints and horizontal advance under a second
+		// name, differing in the vertical advance only (and one exact copy)
+		for _, n := range sortedGlyphNames(f) {
+			if n == ".notdef" || rng.IntN(3) > 0 {
+				continue
+			}
+			g := f.Glyphs[n]
+			tw := &type1.Glyph{WidthX: g.WidthX, WidthY: g.WidthY + float64(100+rng.IntN(400)), HStem: append([]funit.Int16(nil), g.HStem...), VStem: append([]funit.Int16(nil), g.VStem...)}
+			for _, c := range g.Cmds {
+				tw.Cmds = append(tw.Cmds, type1.GlyphOp{Op: c.Op, Args: append([]float64(nil), c.Args...)})
+			}
+			if _, dup := f.Glyphs[n+".v"]; !dup {
+				f.Glyphs[n+".v"] = tw
+			}
+			if _, dup := f.Glyphs[n+".copy"]; !dup && rng.IntN(2) == 0 {
+				cp := *tw
+				cp.WidthY = g.WidthY
+				f.Glyphs[n+".copy"] = &cp
+			}
+			o.f("twin glyphs differing in the vertical advance only")
+			break
+		}
+	}
 	names := sortedGlyphNames(f)
 
 	// encoding
@@ -810,6 +834,9 @@ func (o *afmOpts) f(s string) {
 
 func genToken(rng *rand.Rand) string {
 	n := 1 + rng.IntN(10)
+	if rng.IntN(40) == 0 {
+		n = []int{126, 127, 128, 129, 200, 255, 256, 300}[rng.IntN(8)] // no format limits the length of a token
+	}
 	b := make([]byte, n)
 	high := rng.IntN(4) == 0 // names in ISO Latin-1 or UTF-8 (no byte of which is white space)
 	for i := range b {
